@@ -57,6 +57,8 @@ MIN = {'quick': {'distinct': 20000,
                             'word starting with # or %%': 60,
                             'gf_separator differs from the labels': 30,
                             'word with non-ASCII space character': 30,
+                            'discobrackets token that is a bare '
+                            'parenthesis': 40,
                             'cross-format agreement': 200,
                             'sweep: ill-formed group rejected': 20000,
                             'sweep: well-formed group decoded': 100,
@@ -180,6 +182,9 @@ def make_bank(rng, fmt, decorated, sep, quick=True, unispace=True, big=False):
         words = words + gen.WORDS_UNISPACE
     if fmt in ('brackets', 'discobrackets'):
         words = [w for w in words if '(' not in w and ')' not in w]
+        if fmt == 'discobrackets' and rng.random() < 0.25:
+            # on the token line a parenthesis standing alone is a token
+            words = words + ['(', ')', '(', ')']
     empty_cat = rng.random() < 0.12
     pools = gen.Pools(words=words, pos=gen.POS + ['$.', '$,', 'PRP$']
                       + (['EMPTY'] * 4 if empty_cat else []),
@@ -446,6 +451,9 @@ def run_case(ctx, case, probe_obj=None):
     if any(c in t['w'] for sp in bank for t in gen.tokens_of(sp['root'])
            for c in '\u00a0\u3000\u2009'):
         ctx.stratum('word with non-ASCII space character')
+    if fmt == 'discobrackets' and any(
+            t['w'] in '()' for sp in bank for t in gen.tokens_of(sp['root'])):
+        ctx.stratum('discobrackets token that is a bare parenthesis')
     if v4:
         ctx.stratum('export v4')
     if fmt == 'tigerxml' and eo.get('no_vroot') and all(
